@@ -71,6 +71,9 @@ def tasks(tier):
         for end in ((['exit', 'hup+exit'] if tr.startswith('pty') else ['close'])):
             out.append(dict(transport=tr, size=2000, pairs=[(1, 1)] if q else [(1, 1), (3, 0), (2000, 5)], ending=end, driver='rnb0'))
     out.append(dict(transport='popen', size=2000, pairs=[(1, 1)] if q else [(1, 1), (3, 0), (2000, 5)], ending='exit', driver='rnb0'))
+    # readlines() (readline / iteration go through the same loop) with an unterminated last line
+    for tr in ('pty-select', 'fd-pipe', 'popen', 'socket'):
+        out.append(dict(transport=tr, size=2000, pairs=[(1, 1), (3, 0)], ending='exit' if tr in ('pty-select', 'popen') else 'close', driver='readlines'))
     # unicode mode with reads smaller than a character (an empty decoded chunk is not the end of the stream)
     for tr in ('pty-select', 'fd-pipe', 'popen', 'socket'):
         for size in ((1,) if q else (1, 3)):
@@ -205,6 +208,12 @@ def run_config(ch, task, x, y, record=None):
                     if not want.startswith(got):
                         viol = ('corrupt', 'returned so far %r, written %r' % (got[-40:], want[:len(got)][-40:]))
                         break
+                elif task['driver'] == 'readlines':
+                    # the remaining read entry points on top of expect: everything up to EOF, also an unterminated last line
+                    sp.timeout = T
+                    got = got[:0].join(sp.readlines())
+                    obs['end'] = 'EOF'
+                    break
                 else:
                     sp.expect(EOF, timeout=T)
                     if env.points - p0 > 1 and len(env.script) < n_actions_before:
